@@ -106,7 +106,7 @@ def mem_kinds(algo):
 def base_cfg(loop, algo, **kw):
     c = {"loop": loop, "algo": algo, "env": "vec2" if loop != "bandit" else "bandit32", "ls": {"on": 4, "maon": 4, "offline": 1}.get(loop, 2),
          "mem": "uniform", "evo": "tourn", "ckpt": False, "pop": 2, "budget": "in3", "space": default_space(algo),
-         "autoreset": "default", "target": None}
+         "autoreset": "default", "target": None, "hls": False}
     c.update(kw)
     return c
 
@@ -150,6 +150,14 @@ def lattice(tier):
             if q:
                 for budget in ("in1", "at2"):
                     add(loop=loop, algo=algo, evo="tourn", pop=3, budget=budget, ckpt=False)
+            # ---- heterogeneous learn_step (on-policy loops): the members' step counters drift apart, so the stop predicate
+            # must really look at every member (learn_step is an evolvable hyper-parameter; populations become heterogeneous)
+            if loop == "on":
+                for env in ("vec2", "vec3"):
+                    for pop in (2, 3):
+                        for evo in (("none", "tourn") if q else ("none", "tourn", "rlhp")):
+                            for budget in (("in3",) if q else BUDGETS):
+                                add(loop=loop, algo=algo, env=env, ls=2, pop=pop, evo=evo, budget=budget, hls=True)
             # ---- extras
             if not q:
                 alt = {"PPO": "box", "MADDPG": "discrete", "MATD3": "discrete", "IPPO": "box"}.get(algo)
@@ -192,7 +200,7 @@ def bounds(tier):
                     "evolution": "algo x 6 evolution kinds x pop 2 x budget in3 x checkpoint on", "budget": "algo x {in1,at2} x pop 3"} if q else
                    {"scheduling": "algo x memory x env kind x learn_step x pop {1,2} x evolution {none,tourn,arch,rlhp}",
                     "evolution": "algo (x {uniform, per+nstep} for Rainbow) x 6 evolution kinds x pop {1,2,3} x 3 budgets x checkpoint {off,on}",
-                    "extras": "alternative action space (PPO/IPPO box, MADDPG/MATD3 discrete) x env kind x {tourn,arch,rlhp}; same-step autoreset x {vec2,vec3} x learn_step; target {-1e9,1e9}"}),
+                    "heterogeneous_learn_step": "on-policy: members with learn_step 2,4,6 x {vec2,vec3} x pop {2,3} x {none,tourn,rlhp} x budgets", "extras": "alternative action space (PPO/IPPO box, MADDPG/MATD3 discrete) x env kind x {tourn,arch,rlhp}; same-step autoreset x {vec2,vec3} x learn_step; target {-1e9,1e9}"}),
         "sizes": {"evo_steps": "off 12, on 8, offline 4, bandit episode_steps 4 (=evo_steps), multi-agent 12", "episode_length": EP_LEN, "eval_steps": EVAL_STEPS,
                   "eval_loop": 1, "batch_size": BATCH, "buffer": 64, "nets": "latent 16, hidden [16]"},
         "points": len(pts), "points_per_loop": per_loop,
@@ -501,6 +509,9 @@ def build(c, seed, tmpdir, ledger):
         obs_sp, act_sp = ce.obs_space(), ce.act_space(c["space"])
     pop = create_population(algo=ALGO_NAME[algo], observation_space=obs_sp, action_space=act_sp, net_config=dict(NET), INIT_HP=hp,
                             hp_config=_hp_config(algo), population_size=c["pop"], num_envs=n, device="cpu")
+    if c.get("hls"):
+        for j, a in enumerate(pop):
+            a.learn_step = c["ls"] * (1 + j)  # 2, 4, 6: different generation lengths per member
     kw = dict(env=env, env_name="count", algo=ALGO_NAME[algo], pop=pop, INIT_HP=hp, MUT_P=None, swap_channels=False,
               max_steps=max_steps_for(c), evo_steps=evo_steps(c), eval_steps=EVAL_STEPS, eval_loop=1, target=c["target"],
               wb=False, verbose=False)
@@ -707,7 +718,7 @@ def judge(c, kp, rp, p: Partial, tr: Trace, result, kw, ckpt_state, tmpdir, cls,
             v("stop/before-budget", f"returned after generation {b['gen']} with counted steps {b['totals']} below max_steps={ms}", observed=b["totals"], expected=f">= {ms}")
     if c["target"] is None:
         want = {"in1": 1, "at2": 2, "in3": 3}[c["budget"]]
-        if gens != want and c["evo"] != "rlhp" and not any(s.startswith("stop/") for s in bad):
+        if gens != want and c["evo"] != "rlhp" and not c.get("hls") and not any(s.startswith("stop/") for s in bad):
             # reference count from the documented evo_steps/learn_step arithmetic (rl_hp may change learn_step, hence excluded)
             v("stop/generation-count", f"{gens} generations run, the documented arithmetic gives {want} (max_steps={ms}, {ref_gen_steps(c)} steps per agent and generation)",
               observed=gens, expected=want)
